@@ -252,12 +252,14 @@ func checkC16Tweak(t *Toks) string {
 	if !bytes.Equal(schnorr.SerializePubKey(tw.PubKey()), schnorr.SerializePubKey(want)) {
 		return fail("tweak.matches", "xonly")
 	}
+	// the caller's key must be exactly what it was
 	after := priv.Serialize()
 	if !bytes.Equal(after, before) {
+		how := "changed-other"
 		if bytes.Equal(after, tw.Serialize()) {
-			return fail("tweak.caller_key", fmt.Sprintf("overwritten-by-tweaked-key/odd=%v", tapIsOdd(pub)))
+			how = "overwritten-by-tweaked-key"
 		}
-		return fail("tweak.caller_key", fmt.Sprintf("changed-other/odd=%v", tapIsOdd(pub)))
+		return fail("tweak.caller_key", fmt.Sprintf("%s/odd=%v", how, tapIsOdd(pub)))
 	}
 	return "OK"
 }
